@@ -11,7 +11,10 @@ pub fn parse_obs(text: &String) -> String {
     let ((rest, root), diags) = parse_gold(&toks);
     let d: Vec<String> = diags.iter().map(|d| format!("{}:{}:{}:{}:{}", d.range.start.line, d.range.start.character,
         d.range.end.line, d.range.end.character, if d.msg.is_empty() { "-".to_string() } else { string_to_cps(&d.msg) })).collect();
-    format!("{}|{}|{}", rest.len(), dump_tree(root.as_ref()), d.join(";"))
+    // "the parser consumes every token": the remainder it returns must be the TAIL of the token list (a stale slice of an
+    // earlier sub-parse can be empty, too, while tokens at the end were never looked at)
+    let tail_ok = rest.len() <= toks.len() && std::ptr::eq(rest.as_ptr(), toks[toks.len() - rest.len()..].as_ptr());
+    format!("{}{}|{}|{}", rest.len(), if tail_ok { "" } else { "!detached" }, dump_tree(root.as_ref()), d.join(";"))
 }
 
 pub fn run_case(line: &str) -> String {
